@@ -1041,6 +1041,16 @@ func (m *Matcher) readerKey(fr *frame, e ast.Expr) interface{} {
 		e = stripConv(fr.ctx, e)
 		switch v := e.(type) {
 		case *ast.CallExpr:
+			// len(x) where x was allocated in this function as make(T, n): the loop runs n times
+			if id, ok := v.Fun.(*ast.Ident); ok && id.Name == "len" && len(v.Args) == 1 {
+				if _, isB := fr.ctx.Info.Uses[id].(*types.Builtin); isB {
+					if n := madeLen(fr.ctx, v.Args[0]); n != nil {
+						e = n
+						continue
+					}
+					return nil
+				}
+			}
 			return v
 		case *ast.Ident:
 			obj := fr.ctx.Info.ObjectOf(v)
@@ -1048,15 +1058,86 @@ func (m *Matcher) readerKey(fr *frame, e ast.Expr) interface{} {
 				return nil
 			}
 			if d := fr.ctx.singleDef(obj); d != nil {
-				if _, isCall := stripConv(fr.ctx, d).(*ast.CallExpr); !isCall {
+				if dc, isCall := stripConv(fr.ctx, d).(*ast.CallExpr); !isCall {
 					e = d
+					continue
+				} else if n := makeArg(fr.ctx, dc); n != nil {
+					e = n // x := make(T, n); for range x
 					continue
 				}
 			}
 			return obj
+		case *ast.SelectorExpr:
+			// for range this.items, after this.items = make(T, n)
+			if n := madeLen(fr.ctx, v); n != nil {
+				e = n
+				continue
+			}
+			return nil
 		default:
 			return nil
 		}
+	}
+	return nil
+}
+
+// makeArg: make(T, n) or make(T, n, n) -> n
+func makeArg(cc *FuncCtx, call *ast.CallExpr) ast.Expr {
+	id, ok := call.Fun.(*ast.Ident)
+	if !ok || id.Name != "make" || len(call.Args) < 2 {
+		return nil
+	}
+	if _, isB := cc.Info.Uses[id].(*types.Builtin); !isB {
+		return nil
+	}
+	if len(call.Args) == 3 && types.ExprString(call.Args[1]) != types.ExprString(call.Args[2]) {
+		return nil
+	}
+	return call.Args[1]
+}
+
+// madeLen: the length expression n of the single `x = make(T, n)` assignment to x in the function.
+func madeLen(cc *FuncCtx, x ast.Expr) ast.Expr {
+	x = ast.Unparen(x)
+	if id, ok := x.(*ast.Ident); ok {
+		if obj := cc.Info.ObjectOf(id); obj != nil {
+			if d := cc.singleDef(obj); d != nil {
+				if dc, isCall := ast.Unparen(d).(*ast.CallExpr); isCall {
+					return makeArg(cc, dc)
+				}
+			}
+		}
+		return nil
+	}
+	return MadeLenExpr(cc.Info, cc.FI.Decl.Body, x)
+}
+
+// MadeLenExpr: if x (an identifier or field selector) is assigned exactly once in body and that
+// assignment is `x = make(T, n)`, the expression n; else nil.
+func MadeLenExpr(info *types.Info, body *ast.BlockStmt, x ast.Expr) ast.Expr {
+	cc := &FuncCtx{Info: info}
+	want := types.ExprString(ast.Unparen(x))
+	var found ast.Expr
+	n := 0
+	ast.Inspect(body, func(nd ast.Node) bool {
+		as, ok := nd.(*ast.AssignStmt)
+		if !ok || len(as.Lhs) != len(as.Rhs) {
+			return true
+		}
+		for i := range as.Lhs {
+			if types.ExprString(ast.Unparen(as.Lhs[i])) == want {
+				n++
+				if call, isCall := ast.Unparen(as.Rhs[i]).(*ast.CallExpr); isCall {
+					found = makeArg(cc, call)
+				} else {
+					found = nil
+				}
+			}
+		}
+		return true
+	})
+	if n == 1 {
+		return found
 	}
 	return nil
 }
